@@ -842,16 +842,21 @@ class ParallelProcess(Process):
         # Only end once.
         if self._ended:
             return
-        if self._pending_command:
-            # collect the result of a command that is still running so
-            # that the child is free to receive the end command
-            self.get_command_result()
-        self.send_command('end')
-        if self.profile:
-            stats = pstats.Stats()
-            stats.stats = self.get_command_result()  # type: ignore
-            assert self._stats_objs is not None
-            self._stats_objs.append(stats)
+        try:
+            if self._pending_command:
+                # collect the result of a command that is still running
+                # so that the child is free to receive the end command
+                self.get_command_result()
+            self.send_command('end')
+            if self.profile:
+                stats = pstats.Stats()
+                stats.stats = self.get_command_result()  # type: ignore
+                assert self._stats_objs is not None
+                self._stats_objs.append(stats)
+        except (EOFError, BrokenPipeError, ConnectionResetError):
+            # The child is gone already (an exception in the wrapped
+            # process ended it), so there is nobody left to tell.
+            self._pending_command = None
         self.multiprocess.join()
         self.multiprocess.close()
         self._ended = True
